@@ -45,6 +45,15 @@ def prepare_build(log):
     t0 = time.time()
     with Lock('coqbuild'):
         rc, out = sh(f"python3 {VERIF}/translator/py2coq.py {REPO} {COQ}/gen", timeout=120)
+        # second, structure-independent extraction (symbolic execution / probing of the source), then the tie files
+        env = dict(os.environ, PYTHONPATH=REPO)
+        rc2, out2 = sh(f"timeout 300 /venv/bin/python {VERIF}/translator/symex.py {REPO} {COQ}/gen", timeout=320, env=env)
+        if rc2 != 0:
+            for nm in ('UnitsSym', 'LifecycleSym'):
+                open(os.path.join(COQ, 'gen', nm + '.v'), 'w').write('(* GENERATED: symbolic execution did not finish *)\n')
+            json.dump({nm: {'status': 'unsupported', 'reason': 'symex.py exited %s: %s' % (rc2, out2[-200:])} for nm in ('UnitsSym', 'LifecycleSym')},
+                      open(os.path.join(COQ, 'gen', 'status_sym.json'), 'w'))
+        sh(f"python3 {VERIF}/translator/mktie.py {COQ}/gen", timeout=60)
         try:
             status = json.load(open(os.path.join(COQ, 'gen', 'status.json')))
         except Exception:
@@ -277,7 +286,7 @@ class Check:
                 'Coq 8.16.1 kernel (coqc, full .vo build; vm_compute used, native_compute not used)',
                 'axioms per theorem (Print Assumptions): ' + json.dumps(
                     {k: (v or 'Closed under the global context') for k, v in gate['axioms'].items()}),
-                'translator/py2coq.py (Python ast -> Gallina, fail-closed)',
+                'translator/py2coq.py (Python ast -> Gallina, fail-closed), translator/symex.py (symbolic execution / probing of the source -> Gallina tables, fail-closed), translator/mktie.py',
                 'harness: DSL executor, Gallina printer, output decoder, tolerances (DESIGN.md 4)',
                 'hand transcription of the Python into the Gallina model (kept honest by the correspondence run)',
                 'modelled not verified: CPython/numpy semantics, IEEE rounding and round(), LAPACK, string formatting',
